@@ -1,6 +1,7 @@
 package rules
 
 import (
+	"sort"
 	"fmt"
 	"go/ast"
 	"go/constant"
@@ -3471,4 +3472,353 @@ func E11DerivedScale(c *core.Ctx, r *core.Report) {
 	}
 	r.Count("E11.derived-scale-sites", n)
 	r.Floor("E11.derived-scale-sites", 1)
+}
+
+// E11ItemsCoverGlyphs: GlyphsToItems gives every glyph to exactly one item.
+func E11ItemsCoverGlyphs(c *core.Ctx, r *core.Report) {
+	r.Rule("E11.items-cover-glyphs", "text.GlyphsToItems turns the glyphs of a paragraph into line-breaker items, and an item's Size is the number of glyphs it owns — the only link RichText.ToText has from an item back to the glyph slice. In the loop over the glyphs every path through one iteration increments the Size of exactly one item exactly once, for each alignment RichText.ToText passes (the constants assigned to the argument at the call site; conditions on the alignment are decided per value, all other conditions are followed both ways). A glyph that no item owns (the \\n of a \\r\\n pair skipped by an early continue) shifts every later line by one glyph")
+	tp := c.MustPkg("text")
+	tinfo := tp.TypesInfo
+	fd := core.MustFuncDecl(tp, "GlyphsToItems")
+	r.Func("text.GlyphsToItems")
+	// the alignment parameter and the values the canvas package passes
+	var alignObj types.Object
+	for _, fl := range fd.Type.Params.List {
+		for _, nm := range fl.Names {
+			if o := tinfo.Defs[nm]; o != nil && isNamed(o.Type(), "canvas/text", "Align") {
+				alignObj = o
+			}
+		}
+	}
+	if alignObj == nil {
+		panic(core.Infra("E11.items-cover-glyphs: alignment parameter not found"))
+	}
+	root := c.MustPkg("")
+	values := map[string]bool{}
+	for _, cfd := range core.AllFuncDecls(root) {
+		if cfd.Body == nil {
+			continue
+		}
+		ast.Inspect(cfd.Body, func(m ast.Node) bool {
+			call, ok := m.(*ast.CallExpr)
+			if !ok || len(call.Args) != 3 {
+				return true
+			}
+			f := core.CalleeOf(root.TypesInfo, call)
+			if f == nil || f.Name() != "GlyphsToItems" {
+				return true
+			}
+			arg := core.Unparen(call.Args[2])
+			if cn := core.ConstName(root.TypesInfo, arg); cn != "" {
+				values[cn] = true
+				return true
+			}
+			if id, ok := arg.(*ast.Ident); ok {
+				o := core.ObjOf(root.TypesInfo, id)
+				ast.Inspect(cfd.Body, func(k ast.Node) bool {
+					if as, ok := k.(*ast.AssignStmt); ok && len(as.Lhs) == len(as.Rhs) {
+						for i, l := range as.Lhs {
+							if lid, ok := l.(*ast.Ident); ok && core.ObjOf(root.TypesInfo, lid) == o {
+								if cn := core.ConstName(root.TypesInfo, as.Rhs[i]); cn != "" {
+									values[cn] = true
+								}
+							}
+						}
+					}
+					return true
+				})
+			}
+			return true
+		})
+	}
+	if len(values) == 0 {
+		panic(core.Infra("E11.items-cover-glyphs: no call of GlyphsToItems with constant alignments found in package canvas"))
+	}
+	// the loop over glyphs: a for statement whose body starts with `g := glyphs[i]`
+	var loop *ast.ForStmt
+	for _, st := range fd.Body.List {
+		if fs, ok := st.(*ast.ForStmt); ok && len(fs.Body.List) > 0 {
+			// the loop whose body starts with `g := glyphs[i]`
+			if as, ok := fs.Body.List[0].(*ast.AssignStmt); ok && as.Tok == token.DEFINE && len(as.Rhs) == 1 {
+				if ie, ok := core.Unparen(as.Rhs[0]).(*ast.IndexExpr); ok {
+					if t := tinfo.TypeOf(ie.X); t != nil {
+						if sl, ok := t.Underlying().(*types.Slice); ok && isNamed(sl.Elem(), "canvas/text", "Glyph") {
+							loop = fs
+						}
+					}
+				}
+			}
+		}
+	}
+	if loop == nil {
+		panic(core.Infra("E11.items-cover-glyphs: glyph loop not found"))
+	}
+	isSizeInc := func(st ast.Stmt) bool {
+		switch x := st.(type) {
+		case *ast.IncDecStmt:
+			if sel, ok := x.X.(*ast.SelectorExpr); ok && sel.Sel.Name == "Size" && x.Tok == token.INC {
+				return true
+			}
+		case *ast.AssignStmt:
+			if x.Tok == token.ADD_ASSIGN && len(x.Lhs) == 1 {
+				if sel, ok := x.Lhs[0].(*ast.SelectorExpr); ok && sel.Sel.Name == "Size" {
+					if v, ok := core.ConstInt(tinfo, x.Rhs[0]); ok && v == 1 {
+						return true
+					}
+				}
+			}
+		}
+		return false
+	}
+	var vals []string
+	for v := range values {
+		vals = append(vals, v)
+	}
+	sort.Strings(vals)
+	for _, av := range vals {
+		condVal := func(e ast.Expr) int {
+			var ev func(e ast.Expr) int
+			ev = func(e ast.Expr) int {
+				e = core.Unparen(e)
+				be, ok := e.(*ast.BinaryExpr)
+				if !ok {
+					return -1
+				}
+				switch be.Op {
+				case token.LOR:
+					a, b := ev(be.X), ev(be.Y)
+					if a == 1 || b == 1 {
+						return 1
+					}
+					if a == 0 && b == 0 {
+						return 0
+					}
+				case token.LAND:
+					a, b := ev(be.X), ev(be.Y)
+					if a == 0 || b == 0 {
+						return 0
+					}
+					if a == 1 && b == 1 {
+						return 1
+					}
+				case token.EQL, token.NEQ:
+					if id, ok := core.Unparen(be.X).(*ast.Ident); ok && core.ObjOf(tinfo, id) == alignObj {
+						if cn := core.ConstName(tinfo, be.Y); cn != "" {
+							if (cn == av) == (be.Op == token.EQL) {
+								return 1
+							}
+							return 0
+						}
+					}
+				}
+				return -1
+			}
+			return ev(e)
+		}
+		// min/max number of Size increments over the paths of one iteration
+		var count func(list []ast.Stmt) (int, int, bool)
+		count = func(list []ast.Stmt) (int, int, bool) {
+			lo, hi := 0, 0
+			for _, s := range list {
+				if isSizeInc(s) {
+					lo++
+					hi++
+					continue
+				}
+				switch x := s.(type) {
+				case *ast.BranchStmt:
+					return lo, hi, true
+				case *ast.ReturnStmt:
+					return lo, hi, true
+				case *ast.BlockStmt:
+					a, b, lv := count(x.List)
+					lo, hi = lo+a, hi+b
+					if lv {
+						return lo, hi, true
+					}
+				case *ast.IfStmt:
+					v := condVal(x.Cond)
+					a1, b1, l1 := count(x.Body.List)
+					a2, b2, l2 := 0, 0, false
+					switch e := x.Else.(type) {
+					case *ast.BlockStmt:
+						a2, b2, l2 = count(e.List)
+					case *ast.IfStmt:
+						a2, b2, l2 = count([]ast.Stmt{e})
+					}
+					switch v {
+					case 1:
+						lo, hi = lo+a1, hi+b1
+						if l1 {
+							return lo, hi, true
+						}
+					case 0:
+						lo, hi = lo+a2, hi+b2
+						if l2 {
+							return lo, hi, true
+						}
+					default:
+						// a path that leaves the iteration early ends here with what it has counted
+						if l1 && l2 {
+							if a2 < a1 {
+								a1 = a2
+							}
+							if b2 > b1 {
+								b1 = b2
+							}
+							return lo + a1, hi + b1, true
+						}
+						if l1 {
+							// the leaving path is a complete iteration: it must already have its increment
+							if lo+a1 < 1 || hi+b1 > 1 {
+								return lo + a1, hi + b1, true
+							}
+							lo, hi = lo+a2, hi+b2
+							continue
+						}
+						if l2 {
+							if lo+a2 < 1 || hi+b2 > 1 {
+								return lo + a2, hi + b2, true
+							}
+							lo, hi = lo+a1, hi+b1
+							continue
+						}
+						if a2 < a1 {
+							a1 = a2
+						}
+						if b2 > b1 {
+							b1 = b2
+						}
+						lo, hi = lo+a1, hi+b1
+					}
+				case *ast.SwitchStmt:
+					// cases of other switches: no Size increments expected inside; take min/max over cases
+					mn, mx := 0, 0
+					for _, cs := range x.Body.List {
+						a, b, _ := count(cs.(*ast.CaseClause).Body)
+						if b > mx {
+							mx = b
+						}
+						if a < mn {
+							mn = a
+						}
+					}
+					lo, hi = lo+mn, hi+mx
+				}
+			}
+			return lo, hi, false
+		}
+		lo, hi, _ := count(loop.Body.List)
+		key := "text.GlyphsToItems|alignment " + av + "|one Size increment per glyph"
+		if lo == 1 && hi == 1 {
+			r.OK("E11.items-cover-glyphs", key, c.Pos(loop.Pos()), "")
+		} else {
+			r.Fail("E11.items-cover-glyphs", key, c.Pos(loop.Pos()), fmt.Sprintf("with alignment %s the paths through one iteration of the glyph loop increment an item's Size between %d and %d times: some glyph is owned by no item (or by two), and RichText.ToText maps every later item to the wrong glyphs", av, lo, hi))
+		}
+	}
+	r.Count("E11.alignments-evaluated", len(vals))
+	r.Floor("E11.alignments-evaluated", 2)
+}
+
+// E11PrecisionUnit: canvas.Precision counts significant digits, not decimals.
+func E11PrecisionUnit(c *core.Ctx, r *core.Report) {
+	r.Rule("E11.precision-unit", "canvas.Precision is \"the number of significant digits\" of printed numbers. In the module's format calls it may be the `*` of a %.*g verb (significant digits) and the precision argument of minify.Number/Decimal, but not the `*` of a %.*f verb, which counts decimals: text with more significant digits than Precision makes minify.Decimal round with a carry, and its carry into a new integer digit drops a digit (dec(99.9999996) printed \"10.\", so ToPDF/ToPS wrote a coordinate ten times too small)")
+	n := 0
+	for _, rel := range modulePkgRels {
+		p := c.Pkg(rel)
+		if p == nil {
+			continue
+		}
+		info := p.TypesInfo
+		for _, fd := range core.AllFuncDecls(p) {
+			if fd.Body == nil || strings.HasSuffix(c.Fset.Position(fd.Pos()).Filename, "_test.go") {
+				continue
+			}
+			fname := p.Types.Name() + "." + core.FuncName(fd)
+			ord := 0
+			ast.Inspect(fd.Body, func(m ast.Node) bool {
+				call, ok := m.(*ast.CallExpr)
+				if !ok {
+					return true
+				}
+				f := core.CalleeOf(info, call)
+				if f == nil || f.Pkg() == nil || f.Pkg().Path() != "fmt" {
+					return true
+				}
+				fi := 0
+				switch f.Name() {
+				case "Sprintf":
+					fi = 0
+				case "Fprintf":
+					fi = 1
+				default:
+					return true
+				}
+				if fi >= len(call.Args) {
+					return true
+				}
+				tv, ok := info.Types[call.Args[fi]]
+				if !ok || tv.Value == nil {
+					return true
+				}
+				format := constantStringVal(tv.Value)
+				// walk the verbs, pairing `*` with arguments
+				arg := fi + 1
+				for i := 0; i < len(format); i++ {
+					if format[i] != '%' {
+						continue
+					}
+					j := i + 1
+					star := -1
+					for j < len(format) && strings.IndexByte("+-# 0123456789.*", format[j]) >= 0 {
+						if format[j] == '*' {
+							star = arg
+							arg++
+						}
+						j++
+					}
+					if j >= len(format) {
+						break
+					}
+					verb := format[j]
+					if verb == '%' {
+						i = j
+						continue
+					}
+					if star >= 0 && star < len(call.Args) {
+						if isPrecisionVar(info, call.Args[star]) {
+							n++
+							ord++
+							key := fmt.Sprintf("%s|Precision as the width of a verb #%d", fname, ord)
+							if verb == 'f' || verb == 'F' {
+								r.Fail("E11.precision-unit", key, c.Pos(call.Pos()), fmt.Sprintf("`%s` prints Precision *decimals* (%%.*%c): Precision counts significant digits", types.ExprString(call), verb))
+							} else {
+								r.OK("E11.precision-unit", key, c.Pos(call.Pos()), "%.*"+string(verb))
+							}
+						}
+					}
+					arg++
+					i = j
+				}
+				return true
+			})
+		}
+	}
+	r.Count("E11.precision-verbs", n)
+	r.Floor("E11.precision-verbs", 1)
+}
+
+func isPrecisionVar(info *types.Info, e ast.Expr) bool {
+	var id *ast.Ident
+	switch x := core.Unparen(e).(type) {
+	case *ast.Ident:
+		id = x
+	case *ast.SelectorExpr:
+		id = x.Sel
+	}
+	if id == nil {
+		return false
+	}
+	o := core.ObjOf(info, id)
+	return o != nil && o.Name() == "Precision" && o.Pkg() != nil && o.Pkg().Path() == core.Module && o.Parent() == o.Pkg().Scope()
 }
